@@ -19,6 +19,8 @@ PATTERNS = {
     "weakchiral4": (["C", "N", "O", "H"], [[0, 0, 0], [1.5, 0, 0], [1.5, 1.25, 0], [0.25, 0.5, 0.3125]], {"chiral"}),
     "mirrorsym5": (["C", "H", "H", "F", "Cl"], [[0, 0, 0], [0.625, 0.875, 0.5], [0.625, -0.875, 0.5], [-1.25, 0, 0.375], [0.25, 0, -1.5]], {"symmetric"}),
     "axis_asym4": (["C", "N", "O", "H"], [[0, 0, 0], [0, 2.0, 0], [0.75, 0.5, 0], [0.25, 1.25, 0.625]], {"asymmetric"}),
+    # four atoms in a plane, a fifth 1/16 A above it: the mirror image differs from the pattern by 1/8 A at one atom only
+    "faintchiral5": (["C", "N", "O", "H", "F"], [[0, 0, 0], [2.0, 0, 0], [2.5, 1.5, 0], [-0.5, 1.25, 0], [1.0, 0.75, 0.0625]], {"chiral"}),
     "pair": (["C", "N"], [[0, 0, 0], [1.25, 0, 0]], {"collinear"}),
     "pair_y": (["C", "N"], [[0, 0, 0], [0, 1.25, 0]], {"collinear"}),
     "single": (["Zr"], [[0, 0, 0]], {"single"}),
